@@ -14,7 +14,7 @@ CFG = """CONSTANTS
   MaxWords = %d
   MaxW = %d
 SPECIFICATION Spec
-INVARIANTS Conservation FitsWidth Greedy Emit
+INVARIANTS Conservation FitsWidth Greedy CutOnlyIfNeeded Emit
 PROPERTIES Terminates
 CHECK_DEADLOCK FALSE
 """
